@@ -100,18 +100,28 @@ pub mod thread {
     use std::rc::Rc;
     use std::time::Duration;
 
+    #[derive(Clone, Debug)]
     pub struct Thread {
         name: Option<String>,
+        id: ThreadId,
     }
+
+    /// the simulated task's number
+    #[derive(Clone, Copy, Debug, PartialEq, Eq, Hash, PartialOrd, Ord)]
+    pub struct ThreadId(u64);
 
     impl Thread {
         pub fn name(&self) -> Option<&str> {
             self.name.as_deref()
         }
+        pub fn id(&self) -> ThreadId {
+            self.id
+        }
+        pub fn unpark(&self) {}
     }
 
     pub fn current() -> Thread {
-        Thread { name: dsim::current_task_name() }
+        Thread { name: dsim::current_task_name(), id: ThreadId(dsim::current_task_id().map(|t| t as u64 + 1).unwrap_or(0)) }
     }
 
     pub fn sleep(d: Duration) {
@@ -151,9 +161,13 @@ pub mod thread {
     pub struct JoinHandle<T> {
         task: dsim::TaskId,
         slot: Rc<RefCell<Option<T>>>,
+        thread: Thread,
     }
 
     impl<T> JoinHandle<T> {
+        pub fn thread(&self) -> &Thread {
+            &self.thread
+        }
         pub fn is_finished(&self) -> bool {
             dsim::task_done(self.task)
         }
@@ -191,11 +205,11 @@ pub mod thread {
             let slot: Rc<RefCell<Option<T>>> = Rc::new(RefCell::new(None));
             let s2 = slot.clone();
             let name = self.name.unwrap_or_else(|| "<unnamed>".to_string());
-            let task = dsim::spawn_task(&name, Box::new(move || {
+            let task = dsim::spawn_task(&name.clone(), Box::new(move || {
                 let v = f();
                 *s2.borrow_mut() = Some(v);
             }));
-            Ok(JoinHandle { task, slot })
+            Ok(JoinHandle { task, slot, thread: Thread { name: Some(name), id: ThreadId(task as u64 + 1) } })
         }
     }
 
@@ -405,6 +419,118 @@ pub mod fs {
                 w.vfs.insert(path.clone(), dsim::VFile::default());
                 Ok(File { path, pos: 0, writable: true })
             })
+        }
+
+        pub fn metadata(&self) -> io::Result<Metadata> {
+            let len = dsim::with(|w| w.vfs.get(&self.path).map(|f| f.data.len() as u64)).ok_or_else(|| io::Error::new(io::ErrorKind::NotFound, "gone"))?;
+            Ok(Metadata { len })
+        }
+
+        pub fn sync_all(&self) -> io::Result<()> {
+            disk_time(300);
+            Ok(())
+        }
+
+        pub fn sync_data(&self) -> io::Result<()> {
+            disk_time(300);
+            Ok(())
+        }
+
+        pub fn set_len(&self, size: u64) -> io::Result<()> {
+            dsim::with(|w| {
+                if let Some(f) = w.vfs.get_mut(&self.path) {
+                    f.data.resize(size as usize, 0);
+                }
+            });
+            Ok(())
+        }
+
+        pub fn options() -> OpenOptions {
+            OpenOptions::new()
+        }
+    }
+
+    /// What `File::metadata` reports about a file of the simulated world.
+    #[derive(Clone, Debug)]
+    pub struct Metadata {
+        len: u64,
+    }
+
+    impl Metadata {
+        pub fn len(&self) -> u64 {
+            self.len
+        }
+        pub fn is_empty(&self) -> bool {
+            self.len == 0
+        }
+        pub fn is_file(&self) -> bool {
+            true
+        }
+        pub fn is_dir(&self) -> bool {
+            false
+        }
+    }
+
+    /// `OpenOptions` over the simulated file system (create / truncate / append / read / write)
+    #[derive(Clone, Debug, Default)]
+    pub struct OpenOptions {
+        read: bool,
+        write: bool,
+        append: bool,
+        truncate: bool,
+        create: bool,
+        create_new: bool,
+    }
+
+    impl OpenOptions {
+        pub fn new() -> OpenOptions {
+            OpenOptions::default()
+        }
+        pub fn read(&mut self, on: bool) -> &mut OpenOptions {
+            self.read = on;
+            self
+        }
+        pub fn write(&mut self, on: bool) -> &mut OpenOptions {
+            self.write = on;
+            self
+        }
+        pub fn append(&mut self, on: bool) -> &mut OpenOptions {
+            self.append = on;
+            self
+        }
+        pub fn truncate(&mut self, on: bool) -> &mut OpenOptions {
+            self.truncate = on;
+            self
+        }
+        pub fn create(&mut self, on: bool) -> &mut OpenOptions {
+            self.create = on;
+            self
+        }
+        pub fn create_new(&mut self, on: bool) -> &mut OpenOptions {
+            self.create_new = on;
+            self
+        }
+        pub fn open<P: AsRef<Path>>(&self, path: P) -> io::Result<File> {
+            let p = path.as_ref().to_string_lossy().to_string();
+            let exists = dsim::with(|w| w.vfs.contains_key(&p));
+            if self.create_new && exists {
+                dsim::with(|w| w.record(dsim::Ev::FileCreate { path: p.clone(), ok: false }));
+                return Err(io::Error::new(io::ErrorKind::AlreadyExists, "File exists (os error 17)"));
+            }
+            let writing = self.write || self.append;
+            if !exists && !(writing && (self.create || self.create_new)) {
+                return File::open(path);
+            }
+            if !exists || (writing && self.truncate) {
+                // creating (or truncating) is what File::create does, including its injectable failure
+                let mut f = File::create(path)?;
+                f.writable = writing;
+                return Ok(f);
+            }
+            dsim::yield_point(dsim::Op::Small);
+            dsim::with(|w| w.record(dsim::Ev::FileOpen { path: p.clone(), ok: true }));
+            let end = dsim::with(|w| w.vfs.get(&p).map(|f| f.data.len()).unwrap_or(0));
+            Ok(File { path: p, pos: if self.append { end } else { 0 }, writable: writing })
         }
     }
 
